@@ -270,6 +270,14 @@ theorem U_in_no_config_D (o : CliOpts) (gc : List Str) (hm : o.maxConfigs ≤ 1)
 example : ({ userDefines := "A=1".toList } : CliOpts).maxConfigs ≤ 1 ∧ defines "A=1".toList "B".toList = false := by decide
 example : dirsOk (.els :: .endif :: .opn .ifdef ['A'] :: witnessF15.flatten) = true := by decide
 
+/-- the executable specification behind "coverage under -D / -U" (used by the check's P_impl through the driver):
+    `r ∈ t.reach pos neg` iff some assignment that defines all of `pos` and none of `neg` contains region `r` -/
+theorem reach_spec (t : Items) (r : Nat) (pos neg : List Str) (hc : ∀ x ∈ pos, x ∉ neg) :
+    r ∈ t.reach pos neg ↔ ∃ d : Str → Bool, Agrees d pos neg ∧ r ∈ t.emit d :=
+  ⟨reach_sound t r pos neg hc, fun ⟨d, ha, he⟩ => reach_complete d t r pos neg ha he⟩
+
+example : witnessF16.reach [] [['M','3']] = [0, 1] ∧ witnessF16.reach [['M','3']] [] = [] := by decide
+
 /-- what `simplecpp::preprocess` finally sees: a macro in `-U` is defined in no analysed configuration,
     a macro in `-D` (and not in `-U`) in every one -/
 theorem U_effective (inp : Inp) (c X : Str) (h : X ∈ inp.undefs) : effDefines inp c X = false := by
